@@ -48,6 +48,13 @@ def pd : PState → Str → Option (List DItem)
 
 def parseData (s : Str) : Option (List DItem) := pd .before s
 
+/-- split at commas: the first field and the remaining fields -/
+def split1 : Str → Str × List Str
+  | [] => ([], [])
+  | c :: r => if c = ',' then ([], (split1 r).1 :: (split1 r).2) else (c :: (split1 r).1, (split1 r).2)
+
+def splitCommas (s : Str) : List Str := (split1 s).1 :: (split1 s).2
+
 /-! ### grouping by label -/
 
 inductive Ev where
